@@ -36,6 +36,8 @@ type C10Case struct {
 	Key     string `json:"key"`    // key kind (see c10Keys)
 	Payload int    `json:"payload"`
 	BinSig  bool   `json:"binary_callback_signature,omitempty"` // debsign: the callback returns a binary (not armored) signature
+	// CompCandidate: Comp is a compression name beyond the documented ones (judged only if the tree builds with it)
+	CompCandidate bool `json:"compression_candidate,omitempty"`
 	// InOverride: the signature settings are written in overrides.<format>.<block>.signature only
 	InOverride bool   `json:"signature_in_override,omitempty"`
 	Comp       string `json:"compression,omitempty"`
@@ -291,6 +293,15 @@ func init() {
 						if !yield(C10Case{Format: "apk", Method: "apk", Key: k, Payload: pl, Via: "file", FailJ: -1, Rotate: true}) {
 							return
 						}
+					}
+				}
+			}
+			// compression names beyond the documented ones, should the tree take them (aliases, levels): what is signed
+			// and listed is what is shipped
+			for _, comp := range []string{"zst", "gz", "zstd:3", "gzip:9", "xz:6", "ZSTD", "Gzip"} {
+				for _, m := range []string{"debsign", "dpkg-sig"} {
+					if !yield(C10Case{Format: "deb", Method: m, Key: "armored", Payload: 1, Comp: comp, CompCandidate: true, Via: "file", FailJ: -1}) {
+						return
 					}
 				}
 			}
@@ -703,6 +714,12 @@ func checkC10(env *engine.Env, ci any) engine.Outcome {
 	var buf bytes.Buffer
 	perr := p.Package(info, &buf)
 	out.Nontrivial = true
+	if c.CompCandidate && perr != nil {
+		// a compression name beyond the documented ones that this tree does not take: nothing to judge
+		out.Nontrivial = false
+		out.Key = fmt.Sprintf("%s:%s:candidate-compression:%s:refused", f, c.Method, c.Comp)
+		return out
+	}
 	expectFail := key.wantFail && c.Via == "file"
 	if c.Method == "debsign" && c.SigType != "" && c.SigType != "origin" && c.SigType != "maint" && c.SigType != "archive" {
 		expectFail = true
